@@ -122,6 +122,10 @@ def fromUniqGen (q : Qty) (u : Nat) : Cell :=
   let d := (Nat.log2 u - q.nd0Bits) / q.dim
   (d, u - ((1 <<< q.nd0Bits) <<< (q.dim * d)))
 
+/-- `MocQty::uniq_gen_to_range(uniq)` (repaired: the shift is `shift_from_depth_max(depth)`, i.e.
+    `dim * (MAX_DEPTH - depth)`; it was `(MAX_DEPTH - depth) << 1` — the HEALPix value — for every quantity). -/
+def uniqGenToRange (q : Qty) (w u : Nat) : Rng := rangeOfCell q w (fromUniqGen q u)
+
 /-- `MocQty::to_zuniq(depth, idx)`. -/
 def toZuniq (q : Qty) (w d i : Nat) : Nat := ((i <<< 1) ||| 1) <<< q.shiftFromMax w d
 
